@@ -1,6 +1,7 @@
 package rules
 
 import (
+	"go/token"
 	"fmt"
 	"go/types"
 	"sort"
@@ -156,7 +157,7 @@ func runC08(p *core.Prog, r *core.Report, tier string) {
 							started = true
 							// the cond passed is the one waited on
 							for _, a := range gg.Call.Args {
-								if a == condV {
+								if sameCell(E, a, condV) {
 									signaller = signaller || (sleeps && signals)
 								}
 							}
@@ -164,7 +165,7 @@ func runC08(p *core.Prog, r *core.Report, tier string) {
 						if fn, ok := gg.Call.Value.(*ssa.Function); ok && fn == cl {
 							started = true
 							for _, a := range gg.Call.Args {
-								if a == condV {
+								if sameCell(E, a, condV) {
 									signaller = signaller || (sleeps && signals)
 								}
 							}
@@ -175,12 +176,7 @@ func runC08(p *core.Prog, r *core.Report, tier string) {
 			}
 			r.Check(signaller, "C08.c", base+"|timeout-signaller", p.Pos(waitCall.Pos()), "a goroutine sleeps s.timeout and then signals the waited condition", "no goroutine sleeps the configured timeout and then signals the condition variable the entry waits on (the entry can wait forever)")
 			// the worker gets the same cond
-			sameCond := false
-			for _, a := range g.Call.Args {
-				if a == condV {
-					sameCond = true
-				}
-			}
+			sameCond := sharedWithWorker(E, g.Call.Args, condV)
 			r.Check(sameCond, "C08.c", base+"|worker-shares-cond", p.Pos(g.Pos()), "the workers signal the condition the entry waits on", "the workers are given another condition variable than the one the entry waits on")
 			// Lock before, Unlock after
 			la := core.NewLockAnalysis(p)
@@ -211,6 +207,20 @@ func runC08(p *core.Prog, r *core.Report, tier string) {
 			if strings.HasSuffix(a.Type().String(), "semaphore.Weighted") {
 				sd := ds.D(a)
 				r.Check(sd.IsCall("semaphore.NewWeighted"), "C08.g", fmt.Sprintf("%s|semaphore-per-call#%d", base, i), p.Pos(g.Pos()), "the semaphore is created for this submission", "the workers share a long-lived semaphore ("+sd.String()+"): permits held by workers stuck on a hung node are lost to later submissions")
+			}
+			// the semaphore carried in a per-call state object
+			if al, ok := a.(*ssa.Alloc); ok {
+				for _, sl := range core.StructLits(E, "") {
+					if sl.Alloc != al {
+						continue
+					}
+					for fname, v := range sl.Fields {
+						if strings.HasSuffix(v.Type().String(), "semaphore.Weighted") {
+							sd := ds.D(v)
+							r.Check(sd.IsCall("semaphore.NewWeighted"), "C08.g", fmt.Sprintf("%s|semaphore-per-call#%d.%s", base, i, fname), p.Pos(g.Pos()), "the semaphore is created for this submission", "the workers share a long-lived semaphore ("+sd.String()+"): permits held by workers stuck on a hung node are lost to later submissions")
+						}
+					}
+				}
 			}
 		}
 		// ---- (d) success iff flag ----
@@ -266,12 +276,7 @@ func runC08(p *core.Prog, r *core.Report, tier string) {
 				r.Check(w == nil, "C08.d", base+"|flag-read-after-wait", p.Pos(flagLoad.Pos()), "the flag is read after the wait", "the completed flag is read before waiting for the workers")
 			}
 			// the worker gets the same flag
-			same := false
-			for _, a := range g.Call.Args {
-				if a == flagLoad.(*ssa.Call).Call.Args[0] {
-					same = true
-				}
-			}
+			same := sharedWithWorker(E, g.Call.Args, flagLoad.(*ssa.Call).Call.Args[0])
 			r.Check(same, "C08.d", base+"|worker-shares-flag", p.Pos(g.Pos()), "the workers set the flag the entry reads", "the workers are given another flag than the one the entry reads")
 		}
 
@@ -551,6 +556,59 @@ func runC08(p *core.Prog, r *core.Report, tier string) {
 	} else {
 		r.Undecide("C08.i", "util.Scatter", "", "anchor not found")
 	}
+}
+
+// sameCell: the two values are the same value, or two loads of one field of one object built in fn
+// whose field is written once (its initialisation).
+func sameCell(fn *ssa.Function, a, b ssa.Value) bool {
+	if a == b {
+		return true
+	}
+	la, ok1 := a.(*ssa.UnOp)
+	lb, ok2 := b.(*ssa.UnOp)
+	if !ok1 || !ok2 || la.Op != token.MUL || lb.Op != token.MUL {
+		return false
+	}
+	fa, ok1 := la.X.(*ssa.FieldAddr)
+	fb, ok2 := lb.X.(*ssa.FieldAddr)
+	if !ok1 || !ok2 || fa.Field != fb.Field || fa.X != fb.X {
+		return false
+	}
+	if _, fresh := fa.X.(*ssa.Alloc); !fresh {
+		return false
+	}
+	stores := 0
+	core.EachInstr(fn, func(in ssa.Instruction) {
+		if st, ok := in.(*ssa.Store); ok {
+			if x, ok := st.Addr.(*ssa.FieldAddr); ok && x.X == fa.X && x.Field == fa.Field {
+				stores++
+			}
+		}
+	})
+	return stores <= 1
+}
+
+// sharedWithWorker: the worker is handed v itself, or the per-call state object built in fn of which v
+// is a field (the value, or the address of an embedded field).
+func sharedWithWorker(fn *ssa.Function, args []ssa.Value, v ssa.Value) bool {
+	for _, a := range args {
+		if sameCell(fn, a, v) {
+			return true
+		}
+		x := v
+		if l, ok := x.(*ssa.UnOp); ok && l.Op == token.MUL {
+			x = l.X
+		}
+		if fa, ok := x.(*ssa.FieldAddr); ok && fa.X == a {
+			if _, fresh := a.(*ssa.Alloc); fresh {
+				if l, isLoad := v.(*ssa.UnOp); isLoad {
+					return sameCell(fn, l, l)
+				}
+				return true
+			}
+		}
+	}
+	return false
 }
 
 func checkScatter(p *core.Prog, r *core.Report, ds *core.Describer, f *ssa.Function) {
